@@ -712,3 +712,47 @@ pub fn without_max_packet(sc: &Scenario) -> Scenario {
     }
     out
 }
+
+// ---------------------------------------------------------------------------------------
+// C11 — identifiers
+
+/// Short, diverse runs that start next to the 65535 -> wrap of the packet identifier counter.
+pub fn ids_near_wrap(rng: &mut Rng) -> Case {
+    let mut cfg = GenCfg::conformant(rng);
+    cfg.w_ops = [0, 3, 3, 2, 2, 0];
+    cfg.max_ops = rng.urange(4, 40);
+    cfg.steps = rng.urange(20, 140);
+    cfg.handles = rng.urange(1, 4);
+    cfg.receive_max = None;
+    cfg.all_reasons = rng.coin();
+    cfg.ack_eagerness = rng.range(1, 8) as u32;
+    let back = rng.range(0, 30) as u16;
+    cfg.preset_ids = Some((65_535 - back, rng.range(1, 100) as u32));
+    let mut g = Gen::new(cfg, rng);
+    g.preamble();
+    for _ in 0..g.cfg.steps {
+        g.action();
+    }
+    if g.rng.coin() {
+        g.drain();
+    } else {
+        g.flush();
+    }
+    finish_case(g, "ids/near-wrap")
+}
+
+/// One long history (macro step) that crosses the wrap for real.
+pub fn ids_long(rng: &mut Rng, ops: u32) -> Case {
+    let clones = rng.urange(1, 4);
+    let preset_ids = std::env::var("POSIM_PRESET").ok().and_then(|s| s.parse::<u16>().ok()).map(|p| (p, 1u32));
+    let config = Config { handles: clones, preset_ids, ..Config::default() };
+    let connect = ConnectSpec { client_id: Some("sim".into()), ..Default::default() };
+    let steps = vec![
+        Step::Start { connect, auths: vec![] },
+        Step::Settle { seed: 0 },
+        Step::Broker { pkt: BrokerPkt::Connack { session_present: false, reason: 0, props: Props::new() }, chunks: Chunks::Whole, hold: false },
+        Step::Settle { seed: 1 },
+        Step::IdHistory { seed: rng.next_u64(), ops, clones, max_outstanding: *rng.pick(&[0usize, 1, 3, 10, 50]) },
+    ];
+    Case { scenario: Scenario { config, steps }, aux: None, profile: "ids/long-history", gen_hash: None, systematic: false }
+}
